@@ -358,3 +358,11 @@ func Run(h func()) {
 	}()
 	h()
 }
+
+// SteerRand makes the library object's private *math/rand.Rand field (found by type, not by name) draw its
+// words from the replay file, so that internal random choices (skip-list tower heights) follow the
+// counterexample.  No-op under the engine, where math/rand is a symbolic stub.
+func SteerRand(obj any) { steerRand(obj) }
+
+// Gate is a scheduling point under the engine (other goroutines may run here); natively it yields.
+func Gate() { runtime.Gosched() }
